@@ -30,7 +30,10 @@ MANIFEST = {
             "the source on every run), C06_datetime_platform_unused (finite, over the shipped templates), C06_listing_order_irrelevant (the written "
             "dictionary is invariant under permutation of the code model), C06_outdir_spelling_irrelevant (what is written under each relative name "
             "does not depend on the spelling of the output directory), C06_hash_order_irrelevant (sorted(<set>) is the same list for every iteration order) "
-            "with the source-shape obligation that every set reaching the output is handed out through sorted() (translator/setorder.py, fail closed).",
+            "with the source-shape obligation that every set reaching the output is handed out through sorted() (translator/setorder.py, fail closed), "
+            "C06_process_state_closed (the module-level / class-level mutable bindings, global declarations, decorators, mutable default arguments and "
+            "class-object attributes of the generator's modules are exactly four harmless ones: nothing is carried from one generation to the next "
+            "inside one interpreter by such means; regenerated from the source on every run).",
     "note": PRES_NOTE + " Partial: the engine itself (template expansion) is not modelled for this property; its determinism rests on the inventory "
             "closure (no unaccounted environment read) plus the differential runs.",
 }
